@@ -94,7 +94,23 @@ class Dm14World:
 
     def _notify(self):
         self.notify_calls.append(self.w.sim.now)
+        if self.respond_plan and self.respond_plan[0].get("inline"):
+            # the serving application answers a read from inside the notification callback (the receive context of its stack)
+            self._respond(self.respond_plan.pop(0))
+            return
         self._notify_q.put(len(self.notify_calls))
+
+    def _respond(self, plan):
+        try:
+            if plan.get("proceed", True):
+                r = self.server.respond(True, list(plan.get("data", [])), 0xFFFF, 0xFF, plan.get("max_timeout", 3))
+            else:
+                r = self.server.respond(False, [], plan.get("error", 0x1), plan.get("edcp", 0x7), plan.get("max_timeout", 3))
+            self.respond_results.append((self.w.sim.now, plan.get("tx"), r))
+        except BaseException as e:  # noqa
+            if isinstance(e, (sk.SimShutdown, sk.SpinDetected)):
+                raise
+            self.respond_results.append((self.w.sim.now, plan.get("tx"), "EXC:%s:%s" % (type(e).__name__, str(e)[:100])))
 
     def _server_app(self):
         while True:
@@ -103,16 +119,7 @@ class Dm14World:
             delay = plan.get("delay", 0.0)
             if delay:
                 sk.FAKE_TIME.sleep(delay)
-            try:
-                if plan.get("proceed", True):
-                    r = self.server.respond(True, list(plan.get("data", [])), 0xFFFF, 0xFF, plan.get("max_timeout", 3))
-                else:
-                    r = self.server.respond(False, [], plan.get("error", 0x1), plan.get("edcp", 0x7), plan.get("max_timeout", 3))
-                self.respond_results.append((self.w.sim.now, plan.get("tx"), r))
-            except BaseException as e:  # noqa
-                if isinstance(e, (sk.SimShutdown, sk.SpinDetected)):
-                    raise
-                self.respond_results.append((self.w.sim.now, plan.get("tx"), "EXC:%s:%s" % (type(e).__name__, str(e)[:100])))
+            self._respond(plan)
 
     # ---- client application ----------------------------------------------------
     def run_client(self, txs, before=None, after=None):
